@@ -12,6 +12,12 @@ def check(ctx, replay=None):
         dict(scope="rich", mc=["RejectOK"], mc_maxskips=[255], stride=1 if th else 3, concs=2, expand=1),
         dict(scope="many", mc=["RejectOK"], mc_maxskips=[255], stride=1 if th else 10, concs=2, expand=1),
     ]
+    # "every policy free of these defects ... is accepted", whatever its shape: lists of 1..7 and of 63..128 conditions (one list may
+    # constrain an argument several times), many lists per syscall, every operation
+    plan.append(dict(scope="shortlist", mc=None, kw=dict(W=8, X32Bit=512, NSys=300), stride=1 if th else 2, concs=2, expand=1))
+    plan.append(dict(scope="longlist", mc=None, kw=dict(W=8, X32Bit=512, NSys=300), stride=1 if th else 4, concs=2, expand=1))
+    plan.append(dict(scope="longops", mc=None, kw=dict(W=8, X32Bit=512, NSys=300), stride=1 if th else 2, concs=2, expand=1))
+    plan.append(dict(scope="pairs", mc=None, stride=1 if th else 4, concs=2, expand=1))
     if th:
         # around the kernel's limit (thorough only: TLC needs ~10 s per 4100-instruction model compilation to know the exact size):
         # programs of 4090..4101 instructions; those that fit 4096 must be accepted
@@ -19,6 +25,6 @@ def check(ctx, replay=None):
     polfam.run_family(ctx, plan, mine={"accept", "panic"}, decision_owner=None)
     ctx.cov["rule"] = ("valid base policies and every single (thorough: also every pair of) listed defect injected at every position (scope defects of "
                        "CompileScopes.tla: unnamed default action, no groups, unknown name, duplicate, conditional+unconditional, argument index 6/7/max, "
-                       "six unknown operation spellings), plus the rich/many scopes whose cond+uncond combinations must be rejected; compiled under recover(); "
+                       "six unknown operation spellings), plus the rich/many scopes whose cond+uncond combinations must be rejected and the defect-free shapes of shortlist / longlist / longops / pairs (lists of 1..128 conditions, repeated arguments), which must be accepted; compiled under recover(); "
                        "accepted policies are executed on every event (their decisions belong to C01/C03)")
     ctx.assumptions += ["the 'architecture without syscall tables' defect cannot be produced through Policy.Assemble on this host (GOARCH amd64 has tables); it is decided at the level of arch.GetInfo by C12/C19"]
